@@ -644,6 +644,15 @@ impl Scenario for C19 {
             // re-entrancy: one JitterRng advanced from inside the timer callback of another one
             return super::c12::gen_nested_spec(rng, "C19", "nested");
         }
+        if rng.chance(1, 800) {
+            // free-running native threads (the one place where the interleaving is NOT decided by the simulator:
+            // a race between two writers of a process-wide cache needs real overlap of a few instructions, which
+            // neither the baton scheduler nor a few dozen Miri schedules reach). aux = [trials, threads, key]
+            spec.variant = "native_race".into();
+            // (a short one here; the long search runs on its own after the workers are done: `rngsim c19race`)
+            spec.aux = vec![800, 4, rng.u64()];
+            return spec;
+        }
         if rng.chance(1, 12) {
             // jump family: three to five instances of ONE jump-capable type, seeds drawn from a pool of two,
             // the same short history and then jump() or long_jump() - same-state siblings doing different
@@ -794,6 +803,9 @@ impl Scenario for C19 {
                 }
             }
             return RunEnd::Ok;
+        }
+        if spec.variant == "native_race" {
+            return native_race(spec, st);
         }
         if spec.variant == "nested" {
             // the same operations of the same generator, once on their own and once each from inside a
@@ -954,5 +966,111 @@ impl Scenario for C19 {
     }
     fn required_probes(&self, _tier: Tier) -> Vec<&'static str> {
         vec!["probe:static_send_sync_table", "probe:schedule_with_interleave_and_migration", "probe:alone_baselines", "fault:interleave", "fault:migrate", "fault:spawn_disturbance"]
+    }
+}
+
+
+/// Threads released at the same instant key fresh generators from their own, distinct seeds (the key
+/// schedules of HC-128 and ISAAC are where a shared cache or scratch buffer would sit) and draw a few
+/// values; when all are idle again the main thread keys the same seeds alone. Every generator must give
+/// what its seed gives alone - during the overlap and after it.
+pub fn native_race(spec: &Spec, st: &mut Stats) -> RunEnd {
+    use std::sync::atomic::{AtomicBool, Ordering};
+    let (trials, threads, key) = (spec.aux[0], spec.aux[1].clamp(2, 4) as usize, spec.aux[2]);
+    fn keyed(kind: u64, s: u64) -> Result<[u64; 4], SutFail> {
+        let k = match kind % 4 {
+            0 | 1 => Kind::Hc128,
+            2 => Kind::Isaac,
+            _ => Kind::Isaac64,
+        };
+        let mut b = vec![0u8; k.seed_len()];
+        b[..8].copy_from_slice(&s.to_le_bytes());
+        let seed = if kind % 8 < 4 { SeedSpec::Bytes(b) } else { SeedSpec::U64(s) };
+        match construct(k, &seed)? {
+            Constructed::Ok(mut g, _) => guard(|| [g.next_u64(), g.next_u64(), g.next_u64(), g.next_u64()]),
+            Constructed::Err(..) => Ok([0; 4]),
+        }
+    }
+    st.evals += 1;
+    st.count("probe:native_race_trials");
+    for trial in 0..trials {
+        let seeds: Vec<(u64, u64)> = (0..threads as u64).map(|t| (crate::prng::h2(key, trial * 8 + t) >> 3, crate::prng::h2(key ^ 0x5eed, trial * 8 + t))).collect();
+        let go = AtomicBool::new(false);
+        let during: Vec<Result<[u64; 4], SutFail>> = std::thread::scope(|sc| {
+            let hs: Vec<_> = seeds
+                .iter()
+                .map(|(k, s)| {
+                    let go = &go;
+                    let (k, s) = (*k, *s);
+                    sc.spawn(move || {
+                        crate::gens::install_quiet_panic_hook();
+                        while !go.load(Ordering::Acquire) {
+                            std::hint::spin_loop();
+                        }
+                        keyed(k, s)
+                    })
+                })
+                .collect();
+            go.store(true, Ordering::Release);
+            hs.into_iter().map(|h| h.join().unwrap_or(Err(SutFail::Panic("thread died".into())))).collect()
+        });
+        for (t, (k, s)) in seeds.iter().enumerate() {
+            let alone = keyed(*k, *s);
+            match (&during[t], &alone) {
+                (Ok(a), Ok(b)) if a == b => {}
+                (Ok(a), Ok(b)) => {
+                    return viol(
+                        "C19/concurrent_keying",
+                        "block generators:native threads",
+                        format!(
+                            "trial {}: a generator keyed from seed {:#x} (kind {}) while {} other threads were keying theirs returned {:x?}; keyed from the same seed alone afterwards it returns {:x?}",
+                            trial, s, k % 8, threads - 1, a, b
+                        ),
+                    );
+                }
+                (Err(SutFail::Panic(m)), _) | (_, Err(SutFail::Panic(m))) => return sut_panic("native_race", m),
+                _ => {}
+            }
+        }
+    }
+    st.sig(&[4, threads as u64]);
+    RunEnd::Ok
+}
+
+
+/// `rngsim c19race <seed> <trials>`: the native-thread race search on its own (no other worker of this check
+/// competes for the cores). Exit 1 + VIOLATION line with a replay file when a generator differs.
+pub fn race_main(seed: u64, trials: u64) -> i32 {
+    let spec = Spec { prop: "C19".into(), variant: "native_race".into(), aux: vec![trials, 4, crate::prng::h2(seed, 0xC19ACE)], ..Default::default() };
+    let mut st = Stats::default();
+    match native_race(&spec, &mut st) {
+        RunEnd::Violation(v) => {
+            let dir = crate::engine::verif_dir().join("replays");
+            std::fs::create_dir_all(&dir).ok();
+            let path = dir.join(format!("C19-race-{}.json", seed));
+            let rf = crate::engine::ReplayFile {
+                property: "C19".into(),
+                class: v.class.clone(),
+                key: v.key.clone(),
+                detail: format!("{} [free-running native threads: reproduces in most, not necessarily all, fresh processes]", v.detail),
+                verif_seed: seed,
+                run_index: 0,
+                tier: "quick".into(),
+                shrink_steps: 0,
+                spec,
+                slice: None,
+                attempts: 24,
+                stderr_full: false,
+            };
+            std::fs::write(&path, serde_json::to_string_pretty(&rf).unwrap()).ok();
+            println!("violation: class={} key={} detail={}", v.class, v.key, v.detail);
+            println!("VIOLATION property=C19 replay={}", path.display());
+            1
+        }
+        RunEnd::Discard(s) if s.starts_with("HARNESS_PANIC") => 2,
+        _ => {
+            println!("C19 (native threads): trials={} threads=4 findings=0", trials);
+            0
+        }
     }
 }
